@@ -66,12 +66,15 @@ def observe(k0, stages, k):
     src = Source(k0, recs)
     sc.TICKS.clear()
     text = text_of(stages, k)
-    o = sc.evaluate(text, src, timeout=30)
-    if o[0] == "err" and o[1] == "EOther" and o[2].startswith("watchdog") and src.pulls <= CAP:
+    patient = sc.WATCHDOG_HITS[0] < 3
+    o = sc.evaluate(text, src, timeout=30 if patient else 4)
+    if patient and o[0] == "err" and o[1] == "EOther" and o[2].startswith("watchdog") and src.pulls <= CAP:
         # no answer although the source was barely touched: machine load, not the pipeline - once more
         src = Source(k0, recs)
         sc.TICKS.clear()
-        o = sc.evaluate(text, src, timeout=90)
+        o = sc.evaluate(text, src, timeout=60)
+        if o[0] == "err" and o[1] == "EOther" and o[2].startswith("watchdog"):
+            sc.WATCHDOG_HITS[0] += 1
     ticks = dict(sc.TICKS)
     if o[0] == "err" and ("PullCap" in o[2] or "watchdog" in o[2]):
         return ("cap",), src.pulls, sum(ticks.values()), ticks, text
